@@ -364,6 +364,8 @@ class PlainResource(Resource):
         super().__init__(name=name)
         assert not path or path.startswith("/")
         self._path = path
+        # The form of the path that is matched against URL.path_safe.
+        self._path_safe = path
 
     @property
     def canonical(self) -> str:
@@ -371,17 +373,18 @@ class PlainResource(Resource):
 
     def freeze(self) -> None:
         if not self._path:
-            self._path = "/"
+            self._path = self._path_safe = "/"
 
     def add_prefix(self, prefix: str) -> None:
         assert prefix.startswith("/")
         assert not prefix.endswith("/")
         assert len(prefix) > 1
         self._path = prefix + self._path
+        self._path_safe = _path_safe(prefix) + self._path_safe
 
     def _match(self, path: str) -> dict[str, str] | None:
         # string comparison is about 10 times faster than regexp matching
-        if self._path == path:
+        if self._path_safe == path:
             return {}
         return None
 
@@ -447,7 +450,10 @@ class DynamicResource(Resource):
         assert prefix.startswith("/")
         assert not prefix.endswith("/")
         assert len(prefix) > 1
-        self._pattern = re.compile(re.escape(prefix) + self._pattern.pattern)
+        # The prefix is quoted, while the pattern is matched against URL.path_safe.
+        self._pattern = re.compile(
+            re.escape(_path_safe(prefix)) + self._pattern.pattern
+        )
         self._formatter = prefix + self._formatter
 
     def _match(self, path: str) -> dict[str, str] | None:
@@ -724,7 +730,7 @@ class PrefixedSubAppResource(PrefixResource):
     def __init__(self, prefix: str, app: "Application") -> None:
         super().__init__(prefix)
         self._app = app
-        self._add_prefix_to_resources(prefix)
+        self._add_prefix_to_resources(self._prefix)
 
     def add_prefix(self, prefix: str) -> None:
         super().add_prefix(prefix)
